@@ -111,22 +111,51 @@ def ready_bits(ctx):
     ctx.ob('R-C03b', 'ready_bands:writers', set(ws) <= {'iv_fd_make_ready', 'iv_fd_register_prologue'} and 'iv_fd_make_ready' in ws,
            loc=list(ws.values())[0][0]['loc'], detail='writers: %s' % sorted(ws))
     f = prog.fn('iv_fd_make_ready')
-    ors = [e for e in f.events() if e['ev'] == 'store' and last_member(e['lhs']) == ('iv_fd_', 'ready_bands') and e['op'] == '|=']
-    zs = [e for e in f.events() if e['ev'] == 'store' and last_member(e['lhs']) == ('iv_fd_', 'ready_bands') and e['op'] == '=' and canon(e['rhs']) == '0']
     links = [e for e in f.events() if is_call(e, ('iv_list_add', 'iv_list_add_tail')) and c01._list_arg_member(e) == ('iv_fd_', 'list_active')]
-    if not ors:
-        raise AnalysisBroken('make_ready: OR-store not found')
-    ok = False
-    for b, blk in f.blocks.items():
+    stores = [e for e in f.events() if e['ev'] == 'store' and last_member(e['lhs']) == ('iv_fd_', 'ready_bands')]
+    if not stores:
+        raise AnalysisBroken('make_ready: store to ready_bands not found')
+    bandp = f.params[2]['name'] if len(f.params) > 2 else None
+    # abstract value of fd->ready_bands at return, as a function of its old value and the band argument:
+    # states (batch membership at entry, keeps old bits, includes the band argument, constant bits, linked here)
+    def tr(e, S):
+        out = set()
+        for (mem, keep, arg, const, linked) in S:
+            if e in stores:
+                rc = canon(e.get('rhs')) if 'rhs' in e else None
+                rv = strip(e['rhs']) if 'rhs' in e else None
+                if e['op'] == '=' and isinstance(rv, dict) and rv.get('k') == 'int':
+                    keep, arg, const = False, False, rv['v']
+                elif e['op'] == '=' and rc == bandp:
+                    keep, arg, const = False, True, 0
+                elif e['op'] == '|=' and rc == bandp:
+                    arg = True
+                elif e['op'] == '|=' and isinstance(rv, dict) and rv.get('k') == 'int':
+                    const = const | rv['v'] if isinstance(const, int) else const
+                else:
+                    keep, arg, const = None, None, 'unknown'
+            elif e in links:
+                linked = True
+            out.add((mem, keep, arg, const, linked))
+        return frozenset(out)
+    def edge(blk, si, S):
         if blk.term and blk.term.get('cond') is not None and len(blk.succ) == 2:
-            for si in (0, 1):
-                for at in norm_cond(blk.term['cond'], si == 0):
-                    if list_empty_test(at, member_key=('iv_fd_', 'list_active')) == 'empty':
-                        mz = must_pass_from_block(f, blk.succ[si], lambda e: e in zs)
-                        ml = must_pass_from_block(f, blk.succ[si], lambda e: e in links)
-                        ok = all(mz.get((e['_b'], e['_i'])) and ml.get((e['_b'], e['_i'])) for e in ors)
-    ctx.ob('R-C03b', 'make_ready:fresh-bits-when-not-in-batch', ok, loc=ors[0]['loc'],
-           detail='when the descriptor is not yet in the batch its bits are zeroed and it is linked before bands are ORed in', fn=f.q)
+            for at in norm_cond(blk.term['cond'], si == 0):
+                t = list_empty_test(at, member_key=('iv_fd_', 'list_active'))
+                if t:
+                    want = 'out' if t == 'empty' else 'in'
+                    S = frozenset((want,) + x[1:] for x in S if x[0] in ('?', want))
+        return S
+    _, ev_in = forward(f, frozenset({('?', True, False, 0, False)}), tr, lambda a, b: a | b, edge=edge)
+    finals = set()
+    for (pb, pi, _) in exits_of(f):
+        finals |= set(ev_in.get((pb, pi), ()))
+    finals |= set(ev_in.get((f.exit, 0), ()))
+    okfresh = bool(finals) and all((x[0] == 'out' and x[1:] == (False, True, 0, True)) or
+                                   (x[0] == 'in' and x[1:] == (True, True, 0, False)) for x in finals)
+    ctx.ob('R-C03b', 'make_ready:fresh-bits-when-not-in-batch', okfresh, loc=stores[0]['loc'],
+           detail='abstract value of ready_bands at return (batch membership at entry, keeps old bits, includes band argument, constant bits, linked): %s; '
+                  'required: not in batch -> exactly the band argument and linked; already in batch -> old bits | band argument' % sorted(map(str, finals)), fn=f.q)
     p0 = f.params[0]['name']
     ctx.ob('R-C03b', 'make_ready:links-into-callers-batch', bool(links) and all(canon(e['args'][1]) == p0 for e in links), loc=f.loc,
            detail='linked into the batch list the caller supplied (%s)' % p0, fn=f.q)
